@@ -13,7 +13,6 @@ import (
 
 	"github.com/prometheus/prometheus/model/labels"
 	"github.com/prometheus/prometheus/storage"
-
 )
 
 type poolReq struct {
